@@ -29,7 +29,8 @@ VALUES = ["a", "b", "c c", ""]
 
 def gen_project(r, npkgs=None, features=None):
     """features: set of optional feature names to allow (tools, classes, provide, coscript, defines)"""
-    f = features if features is not None else {"tools", "classes", "provide", "coscript", "defines", "nocheckout"}
+    f = features if features is not None else {"tools", "classes", "provide", "coscript", "defines", "nocheckout",
+                                               "multivariant"}
     n = npkgs or r.choice([2, 2, 3, 3, 4])
     names = ["p%d" % i for i in range(n)]
     proj = {"pkgs": {}, "classes": {}, "env": {}, "defines": {}, "serial": 1}
@@ -55,7 +56,7 @@ def gen_project(r, npkgs=None, features=None):
             co = {"import": False, "files": {}, "script": {"id": 1, "det": True, "vars": []}}
         pkg = {"deps": deps, "co": co, "bid": 1, "pid": 1,
                "bvars": r.sample(VARS, r.randrange(0, 3)), "pvars": r.sample(VARS, r.randrange(0, 2)),
-               "penv": {}, "provideVars": {}, "tool": None, "useTools": [], "inherit": []}
+               "penv": {}, "xenv": {}, "provideVars": {}, "tool": None, "useTools": [], "inherit": []}
         if r.random() < 0.4:
             pkg["penv"][r.choice(VARS)] = r.choice(VALUES)
         if proj["classes"] and r.random() < 0.5:
@@ -79,6 +80,20 @@ def gen_project(r, npkgs=None, features=None):
                         pkg["co"]["script"]["tools"].append(d)
     if "defines" in f and r.random() < 0.3:
         proj["defines"][r.choice(VARS)] = r.choice(VALUES)
+    if "multivariant" in f and n >= 3 and r.random() < 0.45:
+        # one recipe built in two variants: two consumers hand different values of a consumed variable down
+        a, b, d = names[0], names[1], names[-1]
+        v = r.choice(VARS)
+        pa, pb, pd = proj["pkgs"][a], proj["pkgs"][b], proj["pkgs"][d]
+        for x, y in ((a, b), (a, d), (b, d)):
+            if y not in proj["pkgs"][x]["deps"]:
+                proj["pkgs"][x]["deps"].insert(r.randrange(len(proj["pkgs"][x]["deps"]) + 1), y)
+        pa["xenv"][v] = "x" + a
+        pb["xenv"][v] = "x" + b
+        if v not in pd["bvars"]:
+            pd["bvars"].append(v)
+        pd["penv"].pop(v, None)
+        proj["multivariant"] = [d, v]
     if "tools" in f and "coscript" in f and n >= 2 and r.random() < 0.3:
         # a deterministic script-only checkout that uses a tool built from import sources: the only thing that
         # re-runs it after a source edit of the tool is the "dependency changed" rule
@@ -96,7 +111,7 @@ def gen_project(r, npkgs=None, features=None):
     return proj
 
 
-EDIT_KINDS = ["cotool", "bscript", "pscript", "coscript", "var-value", "var-list", "dep-add", "dep-remove", "provide", "tool-use",
+EDIT_KINDS = ["xenv", "cotool", "bscript", "pscript", "coscript", "var-value", "var-list", "dep-add", "dep-remove", "provide", "tool-use",
               "tool-path", "src-modify", "src-add", "src-delete", "define", "class", "env", "revert", "codet",
               "import-url", "noop"]
 
@@ -111,6 +126,8 @@ def edit(r, proj, history, kinds=None):
         name = r.choice(names)
         if p.get("cotool") in names and kinds is None and r.random() < 0.25:
             kind, name = r.choice(["src-modify", "src-add"]), p["cotool"]
+        elif p.get("multivariant") and kinds is None and r.random() < 0.3:
+            kind = "xenv"
         pkg = p["pkgs"][name]
         idx = names.index(name)
         ser = p["serial"]
@@ -175,6 +192,14 @@ def edit(r, proj, history, kinds=None):
                     p["pkgs"][d]["tool"] = {"path": "b1"}
                 pkg["useTools"].append(d)
             return p, [kind, name, d]
+        if kind == "xenv":
+            cands = [n_ for n_ in names if p["pkgs"][n_].get("xenv")]
+            if cands:
+                n_ = r.choice(cands)
+                v = r.choice(sorted(p["pkgs"][n_]["xenv"]))
+                p["pkgs"][n_]["xenv"][v] = "x%d" % ser
+                return p, [kind, n_, v]
+            continue
         if kind == "cotool" and pkg["co"] and pkg["co"]["script"] and pkg["useTools"]:
             d = r.choice(pkg["useTools"])
             tl = pkg["co"]["script"].setdefault("tools", [])
@@ -241,10 +266,12 @@ CTL = '"$PWD/../../../../../ctl"'
 
 
 def _hook(kind, name):
-    """fault hook of the C05 oracle: the control file is outside of everything Bob tracks"""
+    """fault hook of the oracles: the control file is outside of everything Bob tracks.  Modes: the script exits 1,
+    its shell dies from SIGKILL / SIGTERM (Bob survives), or it kills Bob - always after half of its output."""
     f = "%s/%s-%s" % (CTL, kind, name)
-    return ('if [ -e %s ]; then echo partial >> $OUT; case "$(< %s)" in exit) exit 1;; kill) kill -9 $$;; '
-            'killbob) kill -9 $PPID; sleep 10;; esac; fi\n') % (f, f)
+    fired = "%s/fired-%s-%s" % (CTL, kind, name)
+    return ('if [ -e %s ]; then echo partial >> $OUT; echo 1 > %s; case "$(< %s)" in exit) exit 1;; kill) kill -9 $$;; '
+            'term) kill -TERM $$;; killbob) kill -9 $PPID; sleep 10;; esac; fi\n') % (f, fired, f)
 
 
 def _vars(vs):
@@ -272,6 +299,8 @@ def render_recipe(name, pkg, proj, is_root):
         deps.append({"name": d, "use": use})
     if deps:
         rec["depends"] = deps
+    if pkg.get("xenv"):
+        rec["environment"] = dict(pkg["xenv"])
     if pkg["penv"]:
         rec["privateEnvironment"] = dict(pkg["penv"])
     if pkg["provideVars"]:
@@ -472,6 +501,16 @@ class Sim:
         with open(os.path.join(self.root, "ctl", "%s-%s" % (kind, name)), "w") as f:
             f.write(mode)
 
+    def fired(self):
+        """(kind, name) of the fault hooks that were reached since the last clear_faults()"""
+        d = os.path.join(self.root, "ctl")
+        out = []
+        if os.path.isdir(d):
+            for fn in sorted(os.listdir(d)):
+                if fn.startswith("fired-"):
+                    out.append(fn[6:].split("-", 1))
+        return out
+
     def clear_faults(self):
         d = os.path.join(self.root, "ctl")
         if os.path.isdir(d):
@@ -504,15 +543,27 @@ class Sim:
             raise RuntimeError("buildsim server died")
         st = json.loads(line)
         out = {"wait": st["wait"], "rc": None, "error": None, "log": [], "dump": None}
+        # a child that is killed (fault injection, time-out) may leave any of its files half written
         if os.path.exists(job["res"]):
-            with open(job["res"]) as f:
-                out.update(json.load(f))
+            try:
+                with open(job["res"]) as f:
+                    out.update(json.load(f))
+            except ValueError:
+                pass
         if os.path.exists(job["res"] + ".log"):
             with open(job["res"] + ".log") as f:
-                out["log"] = [json.loads(l) for l in f if l.strip()]
+                for l in f:
+                    if l.strip():
+                        try:
+                            out["log"].append(json.loads(l))
+                        except ValueError:
+                            break
         if os.path.exists(job["res"] + ".dump"):
-            with open(job["res"] + ".dump") as f:
-                out["dump"] = json.load(f)
+            try:
+                with open(job["res"] + ".dump") as f:
+                    out["dump"] = json.load(f)
+            except ValueError:
+                out["dump"] = None
         try:
             with open(job["out"], errors="replace") as f:
                 out["stdout"] = f.read()
@@ -601,6 +652,30 @@ def model_fuel(prefix, aborted_before):
     if aborted_before is not None and aborted_before[0] == "setAttic":
         n += 1
     return n
+
+
+def model_params(inv):
+    """fuel / failing script / junk of the model run that corresponds to a recorded (possibly aborted) invocation"""
+    ab = inv.get("abort")
+    if not ab:
+        return {}
+    obs = inv["obs"]
+
+    def term(path):
+        sn = obs["snaps"].get(path)
+        return "" if sn in (None, EMPTY_SNAP) else "SNAP:" + sn
+    if ab[0] == "cut":
+        if inv["rc"] != "abort":
+            return {}
+        return {"fuel": model_fuel(inv["log"], inv.get("aborted_before"))}
+    runs = [e for e in inv["log"] if e[0] == "run"]
+    if inv["rc"] == 0 or not runs or not inv.get("fired"):
+        return {}
+    path = runs[-1][1]
+    tag = (obs["steps"] or {}).get(path, {}).get("tag")
+    if ab[3] == "killbob":
+        return {"fuel": model_fuel(inv["log"], None) - 1, "junk": term(path)}
+    return {"fail": {tag: term(path)}}
 
 
 class Matcher:
